@@ -9,6 +9,7 @@ import (
 // Returns true if all licenses are valid; otherwise, false.
 // Returns all the invalid licenses contained in the `licenses` argument.
 func ValidateLicenses(licenses []string) (bool, []string) {
+	defer verifStage("ValidateLicenses", "return")
 	valid := true
 	invalidLicenses := []string{}
 	for _, license := range licenses {
@@ -16,6 +17,7 @@ func ValidateLicenses(licenses []string) (bool, []string) {
 			valid = false
 			invalidLicenses = append(invalidLicenses, license)
 		}
+		verifStage("ValidateLicenses", "parsed")
 	}
 	return valid, invalidLicenses
 }
@@ -24,10 +26,12 @@ func ValidateLicenses(licenses []string) (bool, []string) {
 // Returns true if allowed list satisfies test license expression; otherwise, false.
 // Returns error if error occurs during processing.
 func Satisfies(testExpression string, allowedList []string) (bool, error) {
+	defer verifStage("Satisfies", "return")
 	expressionNode, err := parse(testExpression)
 	if err != nil {
 		return false, err
 	}
+	verifStage("Satisfies", "parsed")
 	if len(allowedList) == 0 {
 		return false, errors.New("allowedList requires at least one element, but is empty")
 	}
@@ -36,8 +40,10 @@ func Satisfies(testExpression string, allowedList []string) (bool, error) {
 		return false, err
 	}
 	sortAndDedup(allowedNodes)
+	verifStage("Satisfies", "allowed")
 
 	expandedExpression := expressionNode.expand(true)
+	verifStage("Satisfies", "expanded")
 
 	for _, expressionPart := range expandedExpression {
 		if isCompatible(expressionPart, allowedNodes) {
